@@ -355,7 +355,13 @@ def run_case(case):
     P["flags_enable"] = ()
     P["p_mocap"] = 0.15
     mut = lambda x: x.replace("<option ", '<option sleep_tolerance="100" ', 1).replace("</option>", '<flag sleep="enable"/></option>', 1) if "<flag" not in x else x
-  xml, mjm, feat = S.build(case["seed"], P, user_act=int(rng.integers(0, 3)), delay_act=int(rng.integers(0, 3)), delay_sens=int(rng.integers(0, 3)), plain_motor=1, mutate_xml=mut)
+  ua, da, ds = int(rng.integers(0, 3)), int(rng.integers(0, 3)), int(rng.integers(0, 3))
+  if case["seed"] % 5 == 1:
+    # few actuators, each with a multi-dimensional activation: guarantees na > nu
+    P["actuators"] = 0
+    xml, mjm, feat = S.build(case["seed"], P, user_act=2, delay_act=min(da, 1), delay_sens=ds, plain_motor=0, mutate_xml=mut)
+  else:
+    xml, mjm, feat = S.build(case["seed"], P, user_act=ua, delay_act=da, delay_sens=ds, plain_motor=1, mutate_xml=mut)
   if mjm is None:
     rec.rejected = "mujoco compile"
     return rec.result()
